@@ -160,7 +160,7 @@ def add_linspace_outliers(df, n_outliers, outlier_size):
     `pd.DataFrame`
         DataFrame with outliers added.
     """
-    outlier_positions = np.linspace(0, df.size - 1, n_outliers, dtype=int)
+    outlier_positions = np.linspace(0, df.shape[0] - 1, n_outliers, dtype=int)
     df.iloc[outlier_positions] += outlier_size
     return df
 
